@@ -55,3 +55,18 @@ Proof.
   destruct (N.ltb_spec 65535 (N.of_nat (length (l_data l) + 1))); split; intros H'; try lia; try discriminate; reflexivity.
 Qed.
 Print Assumptions C18_data_pool_bounded.
+
+(* ---- the value stack in every reachable state (proofs in Proofs/StackBound.v) ---- *)
+From BL Require Import Proofs.StoreRt Proofs.StackBound.
+
+Theorem C18_reachable_stack_bounded : forall O r, reachable O r -> r_slen r = lenN (r_stack r) /\ lenN (r_stack r) <= 65535.
+Proof. exact reachable_stack_bounded. Qed.
+Print Assumptions C18_reachable_stack_bounded.
+
+Theorem C18_one_instruction_bounded : forall O h op r, SI r ->
+  match snd (exec_op O h op r) with
+  | Ok _ => lenN (r_stack (fst (exec_op O h op r))) <= 65535
+  | _ => lenN (r_stack (fst (exec_op O h op r))) <= 65536
+  end.
+Proof. exact one_instruction_bounded. Qed.
+Print Assumptions C18_one_instruction_bounded.
